@@ -4,13 +4,41 @@ use std::ops::{Deref, DerefMut};
 
 use better_any::{Tid, TidAble};
 use mahf::{
-    state::registry::{Entry, StateRegistry},
-    CustomState, StateError,
+    logging::log::Log,
+    state::{
+        common::{BestIndividual, Evaluations, Iterations, Populations},
+        registry::{Entry, StateRegistry},
+        Random,
+    },
+    CustomState, Individual, StateError,
 };
 use rand::{seq::SliceRandom, Rng};
 use serde_json::{json, Map, Value};
 
 use crate::util::{caught, read_ndjson, rng, Args, Out, NOVAL};
+
+/// What the drivers need from anything that carries the abstract value of a state: read it, overwrite it.
+pub trait Valued {
+    fn val(&self) -> u32;
+    fn put(&mut self, v: u32);
+}
+impl Valued for u32 {
+    fn val(&self) -> u32 {
+        *self
+    }
+    fn put(&mut self, v: u32) {
+        *self = v;
+    }
+}
+
+/// A state type of the type universe: built from an abstract value, and `Valued`.
+pub trait Marker: for<'a> CustomState<'a> + Valued + Sized + 'static {
+    fn mk(v: u32) -> Self;
+}
+/// The state types for which the `*_value` accessor forms, `set_value` and `or_default` exist at all
+/// (`Deref<Target = u32>` + `Default`): the marker types and mahf's own counters.
+pub trait ValueMarker: Marker + Deref<Target = u32> + DerefMut + Default {}
+impl<T> ValueMarker for T where T: Marker + Deref<Target = u32> + DerefMut + Default {}
 
 macro_rules! marker {
     ($($n:ident),*) => {$(
@@ -19,13 +47,134 @@ macro_rules! marker {
         impl CustomState<'_> for $n {}
         impl Deref for $n { type Target = u32; fn deref(&self) -> &u32 { &self.0 } }
         impl DerefMut for $n { fn deref_mut(&mut self) -> &mut u32 { &mut self.0 } }
-        impl From<u32> for $n { fn from(v: u32) -> Self { Self(v) } }
+        impl Valued for $n { fn val(&self) -> u32 { self.0 } fn put(&mut self, v: u32) { self.0 = v; } }
+        impl Marker for $n { fn mk(v: u32) -> Self { Self(v) } }
     )*};
 }
 marker!(T1, T2, T3, T4, T5, T6, T7, T8, T9);
 
 pub const TYPE_NAMES: [&str; 9] = ["T1", "T2", "T3", "T4", "T5", "T6", "T7", "T8", "T9"];
 
+// ---- two DIFFERENT state types that share their type name: declared under the same identifier in nested blocks of
+// one function (as a declaring macro produces them); they leave the function through a trait.  "A type" is its
+// identity (TypeId), never its name.
+pub trait TwinPair {
+    type A: ValueMarker;
+    type B: ValueMarker;
+}
+pub struct Twins;
+#[allow(dead_code)]
+fn twin_types() {
+    marker!(Twin);
+    type First = Twin;
+    {
+        marker!(Twin);
+        impl TwinPair for Twins {
+            type A = First;
+            type B = Twin;
+        }
+    }
+}
+pub type TwA = <Twins as TwinPair>::A;
+pub type TwB = <Twins as TwinPair>::B;
+pub const TWIN_NAMES: [&str; 2] = ["TwA", "TwB"];
+
+// ---- mahf's own "common" state types, the ones the convenience accessors of `State` look up -------------------
+// abstract value v  <->  Evaluations(v) / Iterations(v) / a best individual with solution v and objective v /
+// a population stack holding one population of one individual with solution v / a generator seeded with v /
+// the (empty) log, whose only abstract value is 0 (nothing outside mahf can write into a Log)
+pub type TP = crate::tagproblem::TagProblem;
+pub type Best = BestIndividual<TP>;
+pub type Pops = Populations<TP>;
+
+macro_rules! counter {
+    ($($n:ident),*) => {$(
+        impl Valued for $n { fn val(&self) -> u32 { self.0 } fn put(&mut self, v: u32) { self.0 = v; } }
+        impl Marker for $n { fn mk(v: u32) -> Self { Self(v) } }
+    )*};
+}
+counter!(Evaluations, Iterations);
+
+fn tagged(v: u32) -> Individual<TP> {
+    Individual::new(v, (v as f64).try_into().unwrap())
+}
+impl Valued for Individual<TP> {
+    fn val(&self) -> u32 {
+        *self.solution()
+    }
+    fn put(&mut self, v: u32) {
+        *self = tagged(v);
+    }
+}
+impl Valued for Best {
+    fn val(&self) -> u32 {
+        self.as_ref().map(|i| *i.solution()).unwrap_or(u32::MAX)
+    }
+    fn put(&mut self, v: u32) {
+        **self = Some(tagged(v));
+    }
+}
+impl Marker for Best {
+    fn mk(v: u32) -> Self {
+        let mut b = Best::new();
+        *b = Some(tagged(v));
+        b
+    }
+}
+impl Valued for Pops {
+    fn val(&self) -> u32 {
+        self.get_current().and_then(|p| p.first()).map(|i| *i.solution()).unwrap_or(u32::MAX)
+    }
+    fn put(&mut self, v: u32) {
+        *self = Pops::mk(v);
+    }
+}
+impl Marker for Pops {
+    fn mk(v: u32) -> Self {
+        let mut p = Pops::new();
+        p.push(vec![tagged(v)]);
+        p
+    }
+}
+impl Valued for Random {
+    fn val(&self) -> u32 {
+        self.config().seed as u32
+    }
+    fn put(&mut self, v: u32) {
+        *self = Random::new(v as u64);
+    }
+}
+impl Marker for Random {
+    fn mk(v: u32) -> Self {
+        Random::new(v as u64)
+    }
+}
+impl Valued for Log {
+    fn val(&self) -> u32 {
+        0
+    }
+    fn put(&mut self, v: u32) {
+        assert_eq!(v, 0, "a Log has no writable content");
+    }
+}
+impl Marker for Log {
+    fn mk(v: u32) -> Self {
+        assert_eq!(v, 0, "a Log has no writable content");
+        Log::new()
+    }
+}
+
+/// the types the convenience accessors of `State` are about (names as in the specification)
+pub const COMMON_NAMES: [&str; 6] = ["Iterations", "Evaluations", "BestIndividual", "Populations", "Random", "Log"];
+/// do the `*_value` forms / `set_value` / `or_default` exist for this type?
+pub fn is_value_type(t: &str) -> bool {
+    TYPE_NAMES.contains(&t) || TWIN_NAMES.contains(&t) || t == "Iterations" || t == "Evaluations"
+}
+pub fn is_value_form(op: &str, f: &str) -> bool {
+    op == "set_value" || f.contains("value") || f == "or_default"
+}
+
+/// generic dispatch over every type of the universe (the body may use the `Marker` interface only)
 #[macro_export]
 macro_rules! with_type {
     ($name:expr, $T:ident => $body:expr) => {
@@ -39,13 +188,62 @@ macro_rules! with_type {
             "T7" => { type $T = T7; $body }
             "T8" => { type $T = T8; $body }
             "T9" => { type $T = T9; $body }
+            "TwA" => { type $T = TwA; $body }
+            "TwB" => { type $T = TwB; $body }
+            "Iterations" => { type $T = mahf::state::common::Iterations; $body }
+            "Evaluations" => { type $T = mahf::state::common::Evaluations; $body }
+            "BestIndividual" => { type $T = Best; $body }
+            "Populations" => { type $T = Pops; $body }
+            "Random" => { type $T = mahf::state::Random; $body }
+            "Log" => { type $T = mahf::logging::log::Log; $body }
             other => panic!("unknown type {other}"),
         }
     };
 }
+/// dispatch over the types that have the value forms (`ValueMarker`)
+#[macro_export]
+macro_rules! with_value_type {
+    ($name:expr, $T:ident => $body:expr) => {
+        match $name {
+            "T1" => { type $T = T1; $body }
+            "T2" => { type $T = T2; $body }
+            "T3" => { type $T = T3; $body }
+            "T4" => { type $T = T4; $body }
+            "T5" => { type $T = T5; $body }
+            "T6" => { type $T = T6; $body }
+            "T7" => { type $T = T7; $body }
+            "T8" => { type $T = T8; $body }
+            "T9" => { type $T = T9; $body }
+            "TwA" => { type $T = TwA; $body }
+            "TwB" => { type $T = TwB; $body }
+            "Iterations" => { type $T = mahf::state::common::Iterations; $body }
+            "Evaluations" => { type $T = mahf::state::common::Evaluations; $body }
+            other => panic!("the value forms do not exist for type {other}"),
+        }
+    };
+}
 
-pub trait Marker: for<'a> CustomState<'a> + Deref<Target = u32> + DerefMut + Default + From<u32> {}
-impl<T> Marker for T where T: for<'a> CustomState<'a> + Deref<Target = u32> + DerefMut + Default + From<u32> {}
+/// the type universe of this invocation (root-first maps of the trace are keyed by these names)
+static UNIVERSE: std::sync::OnceLock<Vec<&'static str>> = std::sync::OnceLock::new();
+/// `--names A,B,..` selects the universe explicitly, otherwise it is T1..T<types>
+pub fn set_universe(args: &Args) -> Vec<&'static str> {
+    let nt = args.num("types", 2) as usize;
+    let names: Vec<&'static str> = match args.get("names") {
+        Some(list) => list
+            .split(',')
+            .map(|n| *TYPE_NAMES.iter().chain(COMMON_NAMES.iter()).chain(TWIN_NAMES.iter()).find(|x| **x == n).unwrap_or_else(|| panic!("unknown type {n}")))
+            .collect(),
+        None => TYPE_NAMES[..nt].to_vec(),
+    };
+    // the twins are what they are meant to be: one name, two types
+    assert_eq!(std::any::type_name::<TwA>(), std::any::type_name::<TwB>());
+    assert_ne!(std::any::TypeId::of::<TwA>(), std::any::TypeId::of::<TwB>());
+    UNIVERSE.set(names.clone()).expect("universe set once");
+    names
+}
+pub fn universe() -> &'static [&'static str] {
+    UNIVERSE.get().expect("universe not set")
+}
 
 pub type Reg = StateRegistry<'static>;
 
@@ -59,9 +257,9 @@ pub fn err_kind(e: &StateError) -> &'static str {
     }
 }
 
-pub fn empty_map(ntypes: usize) -> Value {
+pub fn empty_map(_ntypes: usize) -> Value {
     let mut m = Map::new();
-    for t in &TYPE_NAMES[..ntypes] {
+    for t in universe() {
         m.insert(t.to_string(), json!(NOVAL));
     }
     Value::Object(m)
@@ -73,12 +271,12 @@ pub fn r(k: &str, v: i64, ntypes: usize) -> Value {
 
 /// Projection of a single registry node: for every marker type the value bound *in this
 /// scope* (contains_at_top + read through this node), NoVal otherwise.
-pub fn project_scope(reg: &Reg, ntypes: usize) -> Value {
+pub fn project_scope(reg: &Reg, _ntypes: usize) -> Value {
     let mut m = Map::new();
-    for t in &TYPE_NAMES[..ntypes] {
+    for t in universe() {
         let v = with_type!(*t, T => {
             if reg.contains_at_top::<T>() {
-                reg.try_get_value::<T>().map(|v| v as i64).unwrap_or(-1)
+                reg.try_borrow::<T>().map(|g| g.val() as i64).unwrap_or(-1)
             } else {
                 NOVAL
             }
@@ -130,29 +328,49 @@ fn pres(x: Result<i64, String>, nt: usize) -> Value {
     }
 }
 
+/// the forms that exist for every state type
 pub fn read_form<T: Marker>(reg: &Reg, f: &str, nt: usize) -> Value {
     match f {
+        "try_borrow" => sres(reg.try_borrow::<T>(), |g| g.val() as i64, nt),
+        "try_borrow_mut" => sres(reg.try_borrow_mut::<T>(), |g| g.val() as i64, nt),
+        "borrow" => pres(caught(|| reg.borrow::<T>().val() as i64), nt),
+        "borrow_mut" => pres(caught(|| reg.borrow_mut::<T>().val() as i64), nt),
+        other => panic!("unknown read form {other}"),
+    }
+}
+
+/// the forms that go through `Deref` to the value
+pub fn read_value_form<T: ValueMarker>(reg: &Reg, f: &str, nt: usize) -> Value {
+    match f {
         "try_get_value" => sres(reg.try_get_value::<T>(), |v| v as i64, nt),
-        "try_borrow" => sres(reg.try_borrow::<T>(), |g| **g as i64, nt),
         "try_borrow_value" => sres(reg.try_borrow_value::<T>(), |g| *g as i64, nt),
-        "try_borrow_mut" => sres(reg.try_borrow_mut::<T>(), |g| **g as i64, nt),
         "try_borrow_value_mut" => sres(reg.try_borrow_value_mut::<T>(), |g| *g as i64, nt),
         "get_value" => pres(caught(|| reg.get_value::<T>() as i64), nt),
-        "borrow" => pres(caught(|| **reg.borrow::<T>() as i64), nt),
         "borrow_value" => pres(caught(|| *reg.borrow_value::<T>() as i64), nt),
-        "borrow_mut" => pres(caught(|| **reg.borrow_mut::<T>() as i64), nt),
         "borrow_value_mut" => pres(caught(|| *reg.borrow_value_mut::<T>() as i64), nt),
         other => panic!("unknown read form {other}"),
     }
 }
 
+fn swap(x: &mut impl Valued, v: u32) -> i64 {
+    let old = x.val();
+    x.put(v);
+    old as i64
+}
+
 pub fn write_form<T: Marker>(reg: &Reg, f: &str, v: u32, nt: usize) -> Value {
     match f {
-        "try_borrow_mut" => sres(reg.try_borrow_mut::<T>(), |mut g| std::mem::replace(&mut **g, v) as i64, nt),
+        "try_borrow_mut" => sres(reg.try_borrow_mut::<T>(), |mut g| swap(&mut *g, v), nt),
+        "borrow_mut" => pres(caught(|| swap(&mut *reg.borrow_mut::<T>(), v)), nt),
+        other => panic!("unknown write form {other}"),
+    }
+}
+
+pub fn write_value_form<T: ValueMarker>(reg: &Reg, f: &str, v: u32, nt: usize) -> Value {
+    match f {
         "try_borrow_value_mut" => {
             sres(reg.try_borrow_value_mut::<T>(), |mut g| std::mem::replace(&mut *g, v) as i64, nt)
         }
-        "borrow_mut" => pres(caught(|| std::mem::replace(&mut **reg.borrow_mut::<T>(), v) as i64), nt),
         "borrow_value_mut" => {
             pres(caught(|| std::mem::replace(&mut *reg.borrow_value_mut::<T>(), v) as i64), nt)
         }
@@ -160,30 +378,12 @@ pub fn write_form<T: Marker>(reg: &Reg, f: &str, v: u32, nt: usize) -> Value {
     }
 }
 
-fn entry_form<T: Marker>(reg: &mut Reg, f: &str, v: u32, w: u32, nt: usize) -> Value {
+fn entry_value_form<T: ValueMarker>(reg: &mut Reg, f: &str, v: u32, nt: usize) -> Value {
     let entry = reg.entry::<T>();
     let occupied = matches!(entry, Entry::Occupied(_));
     let kind = if occupied { "occupied" } else { "vacant" };
     let val: i64 = match f {
-        "or_insert" => **entry.or_insert(T::from(v)) as i64,
-        "or_insert_with" => {
-            let mut called = false;
-            let got = **entry.or_insert_with(|| {
-                called = true;
-                T::from(v)
-            }) as i64;
-            // the default closure runs exactly when the entry is vacant
-            if called == occupied { -2 } else { got }
-        }
-        "or_default" => **entry.or_default() as i64,
-        "and_modify" => {
-            let mut old = NOVAL;
-            let _ = entry.and_modify(|mut g| {
-                old = **g as i64;
-                **g = v;
-            });
-            old
-        }
+        "or_default" => entry.or_default().val() as i64,
         "and_modify_value" => {
             let mut old = NOVAL;
             let _ = entry.and_modify_value(|x| {
@@ -192,30 +392,57 @@ fn entry_form<T: Marker>(reg: &mut Reg, f: &str, v: u32, w: u32, nt: usize) -> V
             });
             old
         }
-        "and_modify_or_insert" => **entry.and_modify(|mut g| **g = v).or_insert(T::from(w)) as i64,
+        other => panic!("unknown entry form {other}"),
+    };
+    r(kind, val, nt)
+}
+
+fn entry_form<T: Marker>(reg: &mut Reg, f: &str, v: u32, w: u32, nt: usize) -> Value {
+    let entry = reg.entry::<T>();
+    let occupied = matches!(entry, Entry::Occupied(_));
+    let kind = if occupied { "occupied" } else { "vacant" };
+    let val: i64 = match f {
+        "or_insert" => entry.or_insert(T::mk(v)).val() as i64,
+        "or_insert_with" => {
+            let mut called = false;
+            let got = entry.or_insert_with(|| {
+                called = true;
+                T::mk(v)
+            }).val() as i64;
+            // the default closure runs exactly when the entry is vacant
+            if called == occupied { -2 } else { got }
+        }
+        "and_modify" => {
+            let mut old = NOVAL;
+            let _ = entry.and_modify(|mut g| {
+                old = swap(&mut *g, v);
+            });
+            old
+        }
+        "and_modify_or_insert" => entry.and_modify(|mut g| g.put(v)).or_insert(T::mk(w)).val() as i64,
         "occ_get" => match entry {
-            Entry::Occupied(e) => **e.get() as i64,
+            Entry::Occupied(e) => e.get().val() as i64,
             Entry::Vacant(_) => NOVAL,
         },
         "occ_get_mut" => match entry {
-            Entry::Occupied(mut e) => std::mem::replace(&mut **e.get_mut(), v) as i64,
+            Entry::Occupied(mut e) => swap(&mut *e.get_mut(), v),
             Entry::Vacant(_) => NOVAL,
         },
         "occ_into_mut" => match entry {
-            Entry::Occupied(e) => std::mem::replace(&mut **e.into_mut(), v) as i64,
+            Entry::Occupied(e) => swap(&mut *e.into_mut(), v),
             Entry::Vacant(_) => NOVAL,
         },
         "occ_insert" => match entry {
-            Entry::Occupied(mut e) => *e.insert(T::from(v)) as i64,
+            Entry::Occupied(mut e) => e.insert(T::mk(v)).val() as i64,
             Entry::Vacant(_) => NOVAL,
         },
         "occ_remove" => match entry {
-            Entry::Occupied(e) => *e.remove() as i64,
+            Entry::Occupied(e) => e.remove().val() as i64,
             Entry::Vacant(_) => NOVAL,
         },
         "vac_insert" => match entry {
             Entry::Occupied(_) => NOVAL,
-            Entry::Vacant(e) => **e.insert(T::from(v)) as i64,
+            Entry::Vacant(e) => e.insert(T::mk(v)).val() as i64,
         },
         other => panic!("unknown entry form {other}"),
     };
@@ -252,27 +479,21 @@ pub fn exec(reg: &mut Reg, a: &Value, nt: usize) -> Value {
                 }
             }
         }
+        "contains" | "contains_at_top" | "read" | "write" | "set_value" => exec_shared(reg, a, nt).unwrap(),
+        "entry" if is_value_form(op, f) => with_value_type!(t, T => entry_value_form::<T>(ancestor_mut(reg, d), f, v, nt)),
         _ => with_type!(t, T => {
             match op {
-                "insert" => match ancestor_mut(reg, d).insert(T::from(v)) {
-                    Some(old) => r("some", *old as i64, nt),
+                "insert" => match ancestor_mut(reg, d).insert(T::mk(v)) {
+                    Some(old) => r("some", old.val() as i64, nt),
                     None => r("none", NOVAL, nt),
                 },
                 "remove" => match f {
-                    "remove" => sres(ancestor_mut(reg, d).remove::<T>(), |x| *x as i64, nt),
-                    "take" => pres(caught(|| *ancestor_mut(reg, d).take::<T>() as i64), nt),
+                    "remove" => sres(ancestor_mut(reg, d).remove::<T>(), |x| x.val() as i64, nt),
+                    "take" => pres(caught(|| ancestor_mut(reg, d).take::<T>().val() as i64), nt),
                     other => panic!("unknown remove form {other}"),
                 },
-                "contains" => r("bool", ancestor(reg, d).contains::<T>() as i64, nt),
-                "contains_at_top" => r("bool", ancestor(reg, d).contains_at_top::<T>() as i64, nt),
-                "read" => read_form::<T>(ancestor(reg, d), f, nt),
-                "write" => write_form::<T>(ancestor(reg, d), f, v, nt),
-                "set_value" => match ancestor(reg, d).set_value::<T>(v) {
-                    Some(old) => r("some", old as i64, nt),
-                    None => r("none", NOVAL, nt),
-                },
                 "get_mut" => match ancestor_mut(reg, d).get_mut::<T>() {
-                    Some(x) => r("some", std::mem::replace(&mut **x, v) as i64, nt),
+                    Some(x) => r("some", swap(x, v), nt),
                     None => r("none", NOVAL, nt),
                 },
                 "entry" => entry_form::<T>(ancestor_mut(reg, d), f, v, w, nt),
@@ -292,16 +513,25 @@ pub fn exec_shared(reg: &Reg, a: &Value, nt: usize) -> Option<Value> {
     let v = a["v"].as_i64().unwrap() as u32;
     let d = a["d"].as_u64().unwrap() as usize;
     let f = a["f"].as_str().unwrap();
+    if is_value_form(op, f) {
+        return Some(with_value_type!(t, T => {
+            match op {
+                "read" => read_value_form::<T>(ancestor(reg, d), f, nt),
+                "write" => write_value_form::<T>(ancestor(reg, d), f, v, nt),
+                "set_value" => match ancestor(reg, d).set_value::<T>(v) {
+                    Some(old) => r("some", old as i64, nt),
+                    None => r("none", NOVAL, nt),
+                },
+                _ => unreachable!(),
+            }
+        }));
+    }
     Some(with_type!(t, T => {
         match op {
             "contains" => r("bool", ancestor(reg, d).contains::<T>() as i64, nt),
             "contains_at_top" => r("bool", ancestor(reg, d).contains_at_top::<T>() as i64, nt),
             "read" => read_form::<T>(ancestor(reg, d), f, nt),
             "write" => write_form::<T>(ancestor(reg, d), f, v, nt),
-            "set_value" => match ancestor(reg, d).set_value::<T>(v) {
-                Some(old) => r("some", old as i64, nt),
-                None => r("none", NOVAL, nt),
-            },
             _ => unreachable!(),
         }
     }))
@@ -331,23 +561,30 @@ pub const ENTRY_FORMS: [&str; 12] = [
     "occ_get", "occ_get_mut", "occ_into_mut", "occ_insert", "occ_remove", "vac_insert",
 ];
 
+/// the forms of a list that exist for type `t`
+pub fn forms_for<'f>(t: &str, op: &str, all: &'f [&'static str]) -> Vec<&'static str> {
+    all.iter().copied().filter(|f| is_value_type(t) || !is_value_form(op, f)).collect()
+}
+
 /// Random call, biased toward shadow / remove-underneath / entry-on-shadowed / pop.
-pub fn random_act(rng: &mut impl Rng, depth: usize, nt: usize, nvals: u32, maxdepth: usize) -> Value {
-    let t = TYPE_NAMES[rng.gen_range(0..nt)];
-    let v = rng.gen_range(0..nvals) as i64;
-    let w = rng.gen_range(0..nvals) as i64;
+pub fn random_act(rng: &mut impl Rng, depth: usize, _nt: usize, nvals: u32, maxdepth: usize) -> Value {
+    let t = universe()[rng.gen_range(0..universe().len())];
+    // (a Log has one abstract value only)
+    let clip = |x: i64| if t == "Log" { 0 } else { x };
+    let v = clip(rng.gen_range(0..nvals) as i64);
+    let w = clip(rng.gen_range(0..nvals) as i64);
     let d = if rng.gen_bool(0.6) { 0 } else { rng.gen_range(0..depth) };
     match rng.gen_range(0..100) {
         0..=19 => act("insert", t, v, NOVAL, d, "-"),
         20..=29 => act("remove", t, NOVAL, NOVAL, d, if rng.gen_bool(0.7) { "remove" } else { "take" }),
         30..=33 => act("contains", t, NOVAL, NOVAL, d, "-"),
         34..=37 => act("contains_at_top", t, NOVAL, NOVAL, d, "-"),
-        38..=47 => act("read", t, NOVAL, NOVAL, d, READ_FORMS.choose(rng).unwrap()),
-        48..=55 => act("write", t, v, NOVAL, d, WRITE_FORMS.choose(rng).unwrap()),
-        56..=60 => act("set_value", t, v, NOVAL, d, "-"),
-        61..=65 => act("get_mut", t, v, NOVAL, d, "-"),
+        38..=47 => act("read", t, NOVAL, NOVAL, d, forms_for(t, "read", &READ_FORMS).choose(rng).unwrap()),
+        48..=55 => act("write", t, v, NOVAL, d, forms_for(t, "write", &WRITE_FORMS).choose(rng).unwrap()),
+        56..=60 if is_value_type(t) => act("set_value", t, v, NOVAL, d, "-"),
+        56..=65 => act("get_mut", t, v, NOVAL, d, "-"),
         66..=81 => {
-            let f = *ENTRY_FORMS.choose(rng).unwrap();
+            let f = *forms_for(t, "entry", &ENTRY_FORMS).choose(rng).unwrap();
             match f {
                 "and_modify_or_insert" => act("entry", t, v, w, d, f),
                 "or_default" | "occ_get" | "occ_remove" => act("entry", t, NOVAL, NOVAL, d, f),
@@ -367,7 +604,7 @@ fn reset_rec(run: u64, nt: usize) -> Value {
 }
 
 pub fn main(args: &Args) -> usize {
-    let nt = args.num("types", 2) as usize;
+    let nt = set_universe(args).len();
     let mut out = Out::create(&args.str("out"));
     match args.mode.as_str() {
         // scenarios exported from TLC: one json object per line {"run": k, "acts": [...]}
